@@ -12,6 +12,7 @@ wraps around, which is outside these theorems.
 Concurrent logins racing between `check` and `inc` are outside the model.
 -/
 import AGH.Lemmas.AuthCodec
+import AGH.Gen.C12Limiter
 namespace AGH.C12
 
 /-- **The model meets the spec**: for every configuration and every timed
@@ -815,5 +816,106 @@ example : (loginAt (loginAt (St.init 1 1 3600) ex0 0 0 false 0).2 ex0 0 0 false 
   decide
 
 end Example
+
+/-! ## Translator tie: the limiter's bodies as the source states them (regenerated per run)
+
+`extract/cmd/c12` TRANSLATES the bodies of `checkLocked`, `incLocked` and the
+deletion condition of `cleanupLocked` (internal/home/authratelimiter.go) into
+programs of the small statement language `AGH.MiniGo` (`Gen/C12Limiter.lean`,
+rewritten on every run).  The theorems below run those programs and prove them
+equal to the hand-written model for EVERY limiter state, address and instant:
+the throttling theorems of this file are thereby theorems about what the
+source says now, not only about a model that a sample of runs agreed with. -/
+namespace T
+open AGH.MiniGo
+
+/-- The variables the translated bodies read besides their locals. -/
+def envOf (l : Limiter) (now : Nat) : Env := fun x =>
+  if x = "now" then (now : Int)
+  else if x = "ab.maxAttempts" then (l.max : Int)
+  else if x = "ab.blockDur" then (l.blockDur : Int)
+  else 0
+
+/-- What `ab.failedAuths[usrID]` holds. -/
+def slotOf (l : Limiter) (addr : Nat) : Slot := (l.recs addr).map (fun r => ((r.untl : Int), (r.num : Int)))
+
+end T
+
+theorem C12_T_checkLocked_is_model (l : Limiter) (addr now : Nat) :
+    ∃ v, MiniGo.run (T.slotOf l addr) Gen.C12.checkLocked (T.envOf l now) = .ret v ∧
+      v.toNat = checkLocked l addr now := by
+  unfold checkLocked T.slotOf
+  cases h : l.recs addr with
+  | none =>
+    refine ⟨0, ?_, rfl⟩
+    simp [Gen.C12.checkLocked, MiniGo.run, MiniGo.E.eval, MiniGo.Env.set, MiniGo.b2i]
+  | some a =>
+    by_cases hlt : a.num < l.max
+    · refine ⟨0, ?_, by simp [hlt]⟩
+      simp [Gen.C12.checkLocked, MiniGo.run, MiniGo.E.eval, MiniGo.Env.set, MiniGo.b2i, T.envOf, hlt]
+    · refine ⟨(a.untl : Int) - (now : Int), ?_, by simp [hlt]⟩
+      simp [Gen.C12.checkLocked, MiniGo.run, MiniGo.E.eval, MiniGo.Env.set, MiniGo.b2i, T.envOf, hlt]
+
+theorem C12_T_incLocked_is_model (l : Limiter) (addr now : Nat) :
+    ∃ u n, MiniGo.run (T.slotOf l addr) Gen.C12.incLocked (T.envOf l now) = .stored u n ∧
+      (l.inc addr now).recs = l.recs.set addr ⟨u.toNat, n.toNat⟩ ∧
+      (l.inc addr now).blockDur = l.blockDur ∧ (l.inc addr now).max = l.max := by
+  unfold Limiter.inc T.slotOf
+  cases h : l.recs addr with
+  | none =>
+    by_cases hge : 1 ≥ l.max
+    · have hge' : (l.max : Int) ≤ 1 := by omega
+      refine ⟨(now : Int) + (l.blockDur : Int), 1, ?_, ?_, rfl, rfl⟩
+      · simp [Gen.C12.incLocked, MiniGo.run, MiniGo.E.eval, MiniGo.Env.set, MiniGo.b2i, T.envOf, hge']
+      · simp [hge] <;> congr 1
+    · have hge' : ¬ (l.max : Int) ≤ 1 := by omega
+      refine ⟨(now : Int) + 60000000000, 1, ?_, ?_, rfl, rfl⟩
+      · simp [Gen.C12.incLocked, MiniGo.run, MiniGo.E.eval, MiniGo.Env.set, MiniGo.b2i, T.envOf, hge']
+      · simp [hge, failedAuthTTL, nsPerSec] <;> congr 1
+  | some a =>
+    by_cases hge : a.num + 1 ≥ l.max
+    · have hge' : (l.max : Int) ≤ (a.num : Int) + 1 := by omega
+      refine ⟨(now : Int) + (l.blockDur : Int), (a.num : Int) + 1, ?_, ?_, rfl, rfl⟩
+      · simp [Gen.C12.incLocked, MiniGo.run, MiniGo.E.eval, MiniGo.Env.set, MiniGo.b2i, T.envOf, hge']
+      · simp [hge] <;> congr 1
+    · have hge' : ¬ (l.max : Int) ≤ (a.num : Int) + 1 := by omega
+      refine ⟨(a.untl : Int), (a.num : Int) + 1, ?_, ?_, rfl, rfl⟩
+      · simp [Gen.C12.incLocked, MiniGo.run, MiniGo.E.eval, MiniGo.Env.set, MiniGo.b2i, T.envOf, hge']
+      · simp [hge] <;> congr 1
+
+/-- `cleanupLocked` as written deletes exactly the records the model's `cleanup` drops. -/
+theorem C12_T_cleanup_is_model (now : Nat) (recs : FMap Rec) (k : Nat) :
+    cleanup now recs k = (recs k).filter (fun r =>
+      decide (Gen.C12.cleanupCond.eval
+        (fun x => if x = "now" then (now : Int) else if x = "v.until" then (r.untl : Int) else 0) = 0)) := by
+  unfold cleanup
+  congr 1
+  funext r
+  by_cases h : now > r.untl
+  · have h' : (r.untl : Int) < (now : Int) := by omega
+    simp [Gen.C12.cleanupCond, MiniGo.E.eval, MiniGo.b2i, h, h']
+  · have h' : ¬ (r.untl : Int) < (now : Int) := by omega
+    simp [Gen.C12.cleanupCond, MiniGo.E.eval, MiniGo.b2i, h, h']
+
+theorem C12_T_failedAuthTTL : Gen.C12.failedAuthTTL = (failedAuthTTL : Int) := by decide
+
+/-- The decision skeleton of `(*Auth).checkSession` is the model's `checkSession`:
+a session is expired when `expire ≤ now` (both `uint32` seconds of the UTC
+clock); on that branch the memory entry goes first, then the file entry; the
+refreshed expiry is `now + sessionTTL` (uint32 addition: the model's `% u32`),
+written back when it falls on another day (`/ 86400` on both sides). -/
+theorem C12_T_checkSession_skeleton :
+    Gen.C12.sessionCmps = [("s.expire", "<=", "now"), ("s.expire", "!=", "newExpire")] ∧
+      Gen.C12.sessionDivisors = [daySec, daySec] ∧
+      Gen.C12.sessionNow = "uint32(time.Now().UTC().Unix())" ∧
+      Gen.C12.sessionNewExpire = "now + a.sessionTTL" ∧
+      Gen.C12.sessionExpiredEffects = ["delete", "a.removeSessionFromFile", "return checkSessionExpired"] := by
+  decide
+
+/-- non-vacuity: the translated `incLocked` on the third failure of an address with `max = 3` blocks it for `blockDur` -/
+example : MiniGo.run (some (100, 2)) Gen.C12.incLocked (T.envOf ⟨FMap.empty, 900, 3⟩ 50) = .stored 950 3 := by
+  simp [Gen.C12.incLocked, MiniGo.run, MiniGo.E.eval, MiniGo.Env.set, MiniGo.b2i, T.envOf]
+example : MiniGo.run (some (950, 3)) Gen.C12.checkLocked (T.envOf ⟨FMap.empty, 900, 3⟩ 60) = .ret 890 := by
+  simp [Gen.C12.checkLocked, MiniGo.run, MiniGo.E.eval, MiniGo.Env.set, MiniGo.b2i, T.envOf]
 
 end AGH.C12
